@@ -31,8 +31,8 @@ CLASSES = ["EOF", "ComplexEOF", "HilbertEOF", "ExtendedEOF"]
 
 
 @st.composite
-def strategy(draw):
-    cls = draw(st.sampled_from(CLASSES))
+def strategy(draw, cls=None):
+    cls = cls or draw(st.sampled_from(CLASSES))  # (the runner stratifies: every shard runs its slice of CLASSES, one class at a time)
     grid = draw(st.booleans())
     big = draw(st.integers(0, 39)) == 0  # cross the 500-row solver switch now and then
     if grid:
